@@ -45,7 +45,23 @@ var eventTypes = []string{"test-event", "", "a b", "quote\"type", "new\nline", "
 
 func TestC14Formatters(t *testing.T) {
 	sec := stats.Sec("formatters", ruleFmt)
-	rapid.Check(t, func(t *rapid.T) {
+	rapid.Check(t, func(t *rapid.T) { formatterProp(t, sec) })
+}
+
+type caseSink interface {
+	Case(nontrivial bool, desc string, classes ...string)
+}
+
+type noSink struct{}
+
+func (noSink) Case(bool, string, ...string) {}
+
+func formatterProp(t *rapid.T, s *stats.Section) {
+	var sec caseSink = noSink{}
+	if s != nil {
+		sec = s
+	}
+	{
 		d := jsonval.Gen(t, rapid.IntRange(0, 4).Draw(t, "depth"), rapid.IntRange(0, 3).Draw(t, "unenc") == 0)
 		et := rapid.SampledFrom(eventTypes).Draw(t, "eventType")
 		created := time.Date(rapid.IntRange(1, 9999).Draw(t, "year"), time.Month(rapid.IntRange(1, 12).Draw(t, "mon")), 28, 23, 59, 58, rapid.IntRange(0, 999999999).Draw(t, "nanos"),
@@ -170,7 +186,7 @@ func TestC14Formatters(t *testing.T) {
 			cl = append(cl, "hostile_string")
 		}
 		sec.Case(d.Depth() >= 2 && d.HasHostile(), desc, cl...)
-	})
+	}
 }
 
 func containsFuncOrChan(d jsonval.Desc) bool { return false }
@@ -331,4 +347,11 @@ func TestC14TableConcurrent(t *testing.T) {
 		}
 		sec.Case(true, fmt.Sprintf("goroutines=%d ops=%d", g, per), "concurrent")
 	})
+}
+
+// FuzzC14 drives the formatter property through Go's coverage-guided fuzzer (thorough tier only).
+func FuzzC14(f *testing.F) {
+	sec := stats.Sec("native_fuzz", ruleFmt)
+	_ = sec
+	f.Fuzz(rapid.MakeFuzz(func(t *rapid.T) { formatterProp(t, nil) }))
 }
